@@ -241,6 +241,10 @@ Proof.
   destruct n as [neg iw v|fw bits|v|text data bytes|text hdr arr cap chunks|indef data al elems|indef data al pairs|v c];
     try apply kp_fail.
   cbn [nodeK] in Hn. destruct Hn as (Hh & Ha & Hc).
+  eapply kp_bindT with (Q := T).
+  { unfold chunk_assert. destruct text; [apply kp_ret; exact I|]. apply kp_bind_rd; [exact Kx|]. intros rcx nx _. cbn [snd].
+    destruct nx as [| | |[|] ? ?|[|] ? ? ? ?| | |]; first [apply kp_ret; exact I|apply kp_fail]. }
+  intros _.
   eapply kp_bindT; [apply kp_touch; apply optK_some; exact Hh|]. intros _.
   eapply kp_bind with (Q := fun st => forall d' c', st = Some (d', c') -> optK d').
   - destruct (len chunks =? cap).
@@ -461,11 +465,13 @@ Proof. intros H. destruct (len bytes =? 0); [apply kp_ret; exact I|apply kp_touc
 Lemma kp_list_guard {X} (l : list X) data : optK data -> kp (match l with [] => ret tt | _ => touch_data false data end) T.
 Proof. intros H. destruct l; [apply kp_ret; exact I|apply kp_touch; exact H]. Qed.
 
-Lemma kp_chunk_bytes a : K a -> kp (chunk_bytes a) T.
+Lemma kp_chunk_bytes tx a : K a -> kp (chunk_bytes tx a) T.
 Proof.
   intros Ka. unfold chunk_bytes. apply kp_bind_rd; [exact Ka|]. intros rc n Hn. cbn [fst snd].
-  destruct n; try apply kp_fail. cbn [nodeK] in Hn.
-  eapply kp_bindT; [apply kp_str_guard; exact Hn|]. intros _. apply kp_ret. exact I.
+  destruct n as [| | |text data bytes|text ? ? ? ?| | |]; try apply kp_fail.
+  - cbn [nodeK] in Hn. destruct (Bool.eqb text tx); [|apply kp_fail].
+    eapply kp_bindT; [apply kp_str_guard; exact Hn|]. intros _. apply kp_ret. exact I.
+  - destruct (Bool.eqb text tx); apply kp_fail.
 Qed.
 
 Lemma kp_abs : forall fuel a, K a -> kp (abs fuel a) T.
